@@ -670,7 +670,7 @@ def gen_sequences(rng, c):
             q["fail"] = [fn, rng.randint(1, counts[fn] - 1)]
             base["prev"], base["cleanup"], base["pool"] = [q], False, True
     if kind == "resume":
-        base["prev"], base["cleanup"] = [_request_of(c)], False
+        base["prev"], base["cleanup"] = [_request_of(base)], False     # the same request, the same storage
     elif kind == "values":
         base["prev"] = [_request_of(_other_values(c, "~"))]
     elif kind == "other":
